@@ -293,7 +293,21 @@ def decisive : List String :=
   ["replace-higher", "replace-dead", "dead-entry-overridden", "reject-equal", "reject-lower", "remove-hit",
    "gc-collects", "view-hides-dead"]
 
+/-- the GC-vs-Add stress: no history; the model's collector is atomic, so it predicts `lost = 0` -/
+def handleRace (impl : Json) : R Reply := do
+  let trials ← natF impl "trials"
+  let lost ← natF impl "lost"
+  let lostResults ← natF impl "lostResults"
+  let onTick ← natF impl "onTick"
+  let ok := lost == 0
+  pure { agree := ok, specModel := true, specImpl := ok,
+         diff := if ok then "" else s!"{lost} of {trials} collector ticks lost {lostResults} fresh result(s); the atomic gc of the model loses none",
+         fail := if ok then "" else "store: a fresh result added while the garbage collector ran was deleted (scan/evict race)",
+         nontrivial := trials > 0 && onTick == trials,
+         tags := ["gc-race"] ++ (if onTick == trials then ["gc-race-on-tick"] else ["gc-race-off-tick"]) }
+
 def handle (input impl : Json) : R Reply := do
+  if fieldD input "kind" .null == Json.str "gc-race" then return ← handleRace impl
   let ttl ← natF input "ttl"
   -- since efb208c the collector cannot be observed through Add/Remove/View (`gc_transparent`), so the
   -- harness cannot measure its interval; the model's ticks use the constant extracted from the source
